@@ -15,8 +15,9 @@ type Source struct {
 	Data []byte
 	Pos  int
 	// Decide is asked on every Read with the number of bytes requested and
-	// remaining (both > 0); it returns how many bytes to deliver (1..min) and
-	// whether to report io.EOF together with the last bytes.  nil = deliver
+	// remaining (both > 0); it returns how many bytes to deliver (1..min; -1 =
+	// return (0, nil) and deliver nothing in this call) and whether to report
+	// io.EOF together with the last bytes.  nil = deliver
 	// min(requested, remaining), EOF only on the following call.
 	Decide func(call, want, remaining int) (n int, eofWithData bool)
 	// FailAt >= 0 makes the read that would deliver byte FailAt fail with
@@ -73,6 +74,10 @@ func (s *Source) Read(p []byte) (int, error) {
 	eof := false
 	if s.Decide != nil {
 		n, eof = s.Decide(call, len(p), remaining)
+		if n == -1 {
+			// an empty read without error: permitted by io.Reader (if discouraged)
+			return 0, nil
+		}
 		if n < 1 {
 			n = 1
 		}
